@@ -1388,13 +1388,27 @@ class Epoch(object):
                     deltasec += leap_seconds
         # Apply the correction if needed
         if deltasec != 0.0:
-            doy = Epoch.get_doy(year, month, day)
-            doy -= deltasec / DAY2SEC
-            # Check that we didn't change year
-            if doy < 1.0:
-                year -= 1
-                doy = 366.0 + doy if Epoch.is_leap(year) else 365.0 + doy
-            year, month, day = Epoch.doy2date(year, doy)
+            def shift(year, month, day, deltasec):
+                doy = Epoch.get_doy(year, month, day)
+                doy -= deltasec / DAY2SEC
+                # Check that we didn't change year
+                if doy < 1.0:
+                    year -= 1
+                    doy = 366.0 + doy if Epoch.is_leap(year) else 365.0 + doy
+                return Epoch.doy2date(year, doy)
+
+            y0, m0, d0 = year, month, day
+            year, month, day = shift(y0, m0, d0, deltasec)
+            # The leap seconds of the table belong to the UTC date. If the
+            # correction took us back to a month with another table value (last
+            # seconds before a leap second) then use that value instead
+            if tt2utc and (year, month) != (y0, m0) and year >= 1972:
+                dleap = (Epoch.leap_seconds(year, month)
+                         - Epoch.leap_seconds(y0, m0))
+                if dleap != 0:
+                    y2, m2, d2 = shift(y0, m0, d0, deltasec + dleap)
+                    if (y2, m2) == (year, month):
+                        year, month, day = y2, m2, d2
         return year, month, day
 
     def get_full_date(self, **kwargs):
